@@ -411,6 +411,14 @@ fn explore_jobs(tier: Tier) -> Vec<Job> {
     }
     // two input files
     v.push(Job { set: false, mode: "sum".into(), files: vec![vec!["a,1".into(), "b,5".into()], vec!["a,2".into(), "c,7".into(), "b,1".into()]], batch: 2, fd: 2, threads: 2, explore: true, cap_s: cap });
+    // (thorough) four batches, fd-limit 3: which three batch FSTs meet in the first union
+    // depends on the order in which the workers report (12 groupings); the key
+    // k is in three of the four batches
+    if thorough {
+        v.push(Job { set: false, mode: "sum".into(), files: vec![vec!["w,8".into(), "k,1".into(), "k,2".into(), "k,4".into()]], batch: 1, fd: 3, threads: 2, explore: true, cap_s: cap });
+        v.push(Job { set: false, mode: "max".into(), files: vec![vec!["w,8".into(), "k,1".into(), "k,2".into(), "k,4".into()]], batch: 1, fd: 3, threads: 2, explore: true, cap_s: cap });
+        v.push(Job { set: false, mode: "min".into(), files: vec![vec!["k,1".into(), "k,2".into(), "w,8".into(), "k,4".into()]], batch: 1, fd: 3, threads: 2, explore: true, cap_s: cap });
+    }
     v
 }
 
